@@ -764,15 +764,23 @@ class FTPFS(FS):
             try:
                 info = self.getinfo(_path)
             except errors.ResourceNotFound:
-                if _mode.reading:
+                if not _mode.create:
                     raise errors.ResourceNotFound(path)
-                if _mode.writing and not self.isdir(dirname(_path)):
+                if not self.isdir(dirname(_path)):
                     raise errors.ResourceNotFound(path)
+                missing = True
             else:
                 if info.is_dir:
                     raise errors.FileExpected(path)
                 if _mode.exclusive:
                     raise errors.FileExists(path)
+                missing = False
+            if missing or _mode.truncate:
+                # like io.open: the file exists (empty) as soon as it is open
+                with ftp_errors(self, path):
+                    self.ftp.storbinary(
+                        str("STOR ") + _encode(_path, self.ftp.encoding), io.BytesIO()
+                    )
             ftp_file = FTPFile(self, _path, _mode.to_platform_bin())
         return ftp_file  # type: ignore
 
